@@ -197,6 +197,21 @@ def oracle_coords(case, R):
     for cid, ref in systems.items():
         if cid in bc:
             _check_info(R, bc[cid], ref, "build_coords", S)
+    # what a call hands out belongs to the caller: writing into the returned arrays (the basic system's entry
+    # included) leaves the next call what it was
+    keep_bc = {int(k_): np.array(v_, copy=True) for k_, v_ in bc.items()}
+    for v_ in bc.values():
+        np.asarray(v_)[...] = 777.0
+    bc_again = n2p.build_coords(rows if len(rows) > 1 or case.get("twod", True) else rows[0])
+    R.check(set(int(k_) for k_ in bc_again) == set(keep_bc)
+            and all(np.array_equal(np.asarray(bc_again[k_]), keep_bc[int(k_)]) for k_ in bc_again),
+            "build_coords_result_is_a_view_of_internal_state", "second call differs after the first result was edited")
+    b0 = np.asarray(n2p.mkusetcoordinfo(0, None, {}))
+    b0_keep = b0.copy()
+    b0[...] = -5.0
+    R.check(np.array_equal(np.asarray(n2p.mkusetcoordinfo(0, None, {})), b0_keep),
+            "basic_coordinfo_is_a_view_of_internal_state", "")
+    bc = n2p.build_coords(rows if len(rows) > 1 or case.get("twod", True) else rows[0])
     # duplicates (documented): equal duplicate cards are quietly ignored; a card that repeats an id with anything
     # else - another type, another reference system, other points - is a RuntimeError
     if rows:
